@@ -6,6 +6,7 @@ import (
 	"errors"
 	"fmt"
 	"math/rand"
+	"os"
 	"runtime"
 	"strconv"
 	"strings"
@@ -125,6 +126,9 @@ var c07Loops = []c07Loop{
 	{"thread-macro", "(-> 0 (tail-loop))", false},
 	{"retry-in-handler", "(retry-loop 0)", true},
 	{"retry-in-handler-loop", "(retry-loop2 0)", false},
+	{"eval", "(eval (quote (tail-loop 0)))", false},
+	{"eval-nested", "(eval (list (quote do) (list (quote tick!)) (quote (eval (quote (ping 0))))))", false},
+	{"load-file", "(load-file \"/tmp/verif-c07-loop.lisp\")", false},
 	{"sleep", "(do (tick!) (sleep 60000))", true},
 	{"future-sleep", "(do (tick!) @(future (sleep 60000)))", true},
 	{"future-loop", "(do (tick!) @(future (tail-loop 0)))", true},
@@ -370,6 +374,7 @@ func c07RunBlocking(c *fw.Ctx, canary *hx.Canary, id string, prog string, delay 
 }
 
 func runC07(c *fw.Ctx) {
+	os.WriteFile("/tmp/verif-c07-loop.lisp", []byte(";; loaded by C07\n(tick!)\n(tail-loop 0)\n"), 0o644)
 	r := c.Rand("progs")
 	canary := hx.StartCanary()
 	defer canary.Stop()
